@@ -514,6 +514,9 @@ func runC11(r *Run) {
 	}
 	rt.Done()
 
+	// ---- "repeated only once the clock has passed the deadline": the agent's selection predicate is strict
+	r.Borrow("C13", map[string]string{"C13.collect": "C11.strict"})
+
 	// ---- nothing more is written once a transaction ended: shared with C10.reenter
 	re := r.Rule("C11.reenter", "the agent callback calls a handler-invoking agent method only while the transaction is not registered in the client table (otherwise the nested callback retransmits a transaction that is being ended: more than n+1 writes)", 1)
 	checkReenter(r, re, m, newKeyer())
